@@ -6,7 +6,7 @@ from .. import common, evidence, replay, sim, tlc, tours, trace
 
 PID = 'C17'
 ACTIONS = ['Add', 'Discard', 'Remove', 'PopLast', 'PopFirst', 'Clear', 'IOr', 'IAnd', 'ISub',
-           'IXor', 'Pure', 'IterRemove', 'Eq', 'Ne', 'New', 'ISelf']
+           'IXor', 'Pure', 'IterRemove', 'RevIterRemove', 'Eq', 'Ne', 'New', 'ISelf']
 
 
 def cfg(n, maxarg, props=True):
@@ -45,7 +45,7 @@ def random_runs(rnd, n, count, length):
                 acts.append([name, rnd.choice(['or', 'and', 'sub', 'xor']), seq(False)])
             elif name == 'ISelf':
                 acts.append([name, rnd.choice(['or', 'and', 'sub', 'xor'])])
-            elif name == 'IterRemove':
+            elif name in ('IterRemove', 'RevIterRemove'):
                 acts.append([name, [i for i in range(1, n + 1) if rnd.random() < 0.4]])
             else:
                 acts.append([name, seq(False)])
